@@ -1,7 +1,369 @@
 package main
 
-import "fmt"
+// Rewritten copies of library files (hook H8), generated from the CURRENT tree every time —
+// never from a stored patch, so a mutated file is rewritten as mutated.
+//
+//	maporder  every `for … := range <expr of map type>` in non-test files becomes an iteration
+//	          over verifpoint.MapIter(<expr>), a slice of (key, map) items in the forced order;
+//	          the body is guarded by a presence test so that deleting during iteration keeps its
+//	          Go semantics (entries added during iteration are not visited, which Go permits)
+//	yield     verifpoint.Yield(<id>) as first statement of every function/method body of the
+//	          packages under notations/jschema, internal/sync, formats/json (+ rules/enum,
+//	          notations/regex); `defer verifpoint.Hit("once", recv, "field")()` at the top of
+//	          every func literal passed to a .Do( call of internal/sync.ErrOnce[WithValue]
+//
+// The edits are spliced into the source TEXT at positions taken from the type-checked AST and
+// everything inserted stays on the line it is inserted in, so line numbers (race reports, panics)
+// are those of the real file. Each result is re-parsed; any failure makes the whole command fail
+// (exit 3) and ./check then reports "rewritten build unavailable": never an alarm.
+
+import (
+	"encoding/json"
+	"fmt"
+	"go/ast"
+	"go/parser"
+	"go/token"
+	"go/types"
+	"os"
+	"path/filepath"
+	"sort"
+	"strings"
+
+	"golang.org/x/tools/go/packages"
+)
+
+type edit struct {
+	at, end int // replace [at,end) with text (at==end: insertion)
+	text    string
+	prio    int // order among insertions at the same offset
+}
+
+type pointInfo struct {
+	ID   int    `json:"id"`
+	Func string `json:"func"`
+	Hot  bool   `json:"hot"`
+	File string `json:"file"`
+}
+
+const verifpointPkg = "internal/verifpoint"
 
 func doRewrite(repo, out string, kinds []string, replace map[string]string) error {
-	return fmt.Errorf("rewrites not implemented yet: %v", kinds)
+	want := map[string]bool{}
+	for _, k := range kinds {
+		k = strings.TrimSpace(k)
+		switch k {
+		case "maporder", "yield":
+			want[k] = true
+		case "":
+		default:
+			return fmt.Errorf("unknown rewrite %q", k)
+		}
+	}
+	repoAbs, err := filepath.Abs(repo)
+	if err != nil {
+		return err
+	}
+	repoReal := repoAbs
+	if r, err := filepath.EvalSymlinks(repoAbs); err == nil {
+		repoReal = r
+	}
+	relOf := func(name string) (string, bool) {
+		for _, base := range []string{repoAbs, repoReal} {
+			if strings.HasPrefix(name, base+string(filepath.Separator)) {
+				return name[len(base)+1:], true
+			}
+		}
+		return "", false
+	}
+	cfg := &packages.Config{
+		Mode: packages.NeedName | packages.NeedFiles | packages.NeedCompiledGoFiles | packages.NeedSyntax |
+			packages.NeedTypes | packages.NeedTypesInfo | packages.NeedImports | packages.NeedDeps | packages.NeedModule,
+		Dir:   repoAbs,
+		Env:   append(os.Environ(), "GOFLAGS=-mod=mod", "GOPROXY=off", "GOSUMDB=off", "GOTOOLCHAIN=local"),
+		Tests: false,
+	}
+	pkgs, err := packages.Load(cfg, "./...")
+	if err != nil {
+		return fmt.Errorf("go/packages: %w", err)
+	}
+	if len(pkgs) == 0 {
+		return fmt.Errorf("go/packages found no packages under %s", repoAbs)
+	}
+	modPath := ""
+	for _, p := range pkgs {
+		if len(p.Errors) > 0 {
+			return fmt.Errorf("package %s does not type-check: %v", p.PkgPath, p.Errors[0])
+		}
+		if p.Module != nil && modPath == "" {
+			modPath = p.Module.Path
+		}
+	}
+	if modPath == "" {
+		return fmt.Errorf("cannot determine the module path of %s", repoAbs)
+	}
+	vpImport := modPath + "/" + verifpointPkg
+
+	yieldPkg := func(path string) bool {
+		for _, p := range []string{"/notations/jschema", "/internal/sync", "/formats/json", "/rules/enum", "/notations/regex"} {
+			full := modPath + p
+			if path == full || strings.HasPrefix(path, full+"/") {
+				return true
+			}
+		}
+		return false
+	}
+
+	outDir := filepath.Join(out, "rewritten")
+	if err := os.MkdirAll(outDir, 0o755); err != nil {
+		return err
+	}
+	var points []pointInfo
+	stats := map[string]int{}
+	var sites []string
+	sort.Slice(pkgs, func(i, j int) bool { return pkgs[i].PkgPath < pkgs[j].PkgPath })
+	for _, p := range pkgs {
+		if strings.HasSuffix(p.PkgPath, verifpointPkg) || strings.HasSuffix(p.PkgPath, "/verifpoint") || strings.HasSuffix(p.PkgPath, "/verifhook") {
+			continue
+		}
+		for fi, f := range p.Syntax {
+			if fi >= len(p.CompiledGoFiles) {
+				break
+			}
+			name := p.CompiledGoFiles[fi]
+			rel, inRepo := relOf(name)
+			if strings.HasSuffix(name, "_test.go") || !inRepo {
+				continue
+			}
+			src, err := os.ReadFile(name)
+			if err != nil {
+				return err
+			}
+			tf := p.Fset.File(f.Pos())
+			if tf == nil || tf.Size() != len(src) {
+				return fmt.Errorf("%s changed while it was being rewritten", name)
+			}
+			off := func(pos token.Pos) int { return tf.Offset(pos) }
+			text := func(n ast.Node) string { return string(src[off(n.Pos()):off(n.End())]) }
+			var edits []edit
+
+			if want["maporder"] {
+				n := 0
+				ast.Inspect(f, func(nd ast.Node) bool {
+					rs, ok := nd.(*ast.RangeStmt)
+					if !ok {
+						return true
+					}
+					t := p.TypesInfo.TypeOf(rs.X)
+					if t == nil {
+						return true
+					}
+					if _, isMap := t.Underlying().(*types.Map); !isMap {
+						if _, isTP := t.(*types.TypeParam); isTP {
+							stats["range over a type parameter (not rewritten)"]++
+						}
+						return true
+					}
+					n++
+					it := fmt.Sprintf("verifIt%d", n)
+					okv := fmt.Sprintf("verifOk%d", n)
+					var pro strings.Builder
+					isBlank := func(e ast.Expr) bool {
+						if e == nil {
+							return true
+						}
+						id, ok := e.(*ast.Ident)
+						return ok && id.Name == "_"
+					}
+					asg := ":="
+					if rs.Tok == token.ASSIGN {
+						asg = "="
+					}
+					if !isBlank(rs.Key) {
+						fmt.Fprintf(&pro, "%s %s %s.K; ", text(rs.Key), asg, it)
+					}
+					if !isBlank(rs.Value) {
+						if rs.Tok == token.ASSIGN {
+							fmt.Fprintf(&pro, "var %s bool; %s, %s = %s.Get(); ", okv, text(rs.Value), okv, it)
+						} else {
+							fmt.Fprintf(&pro, "%s, %s := %s.Get(); ", text(rs.Value), okv, it)
+						}
+						fmt.Fprintf(&pro, "if !%s { continue }; ", okv)
+					} else {
+						fmt.Fprintf(&pro, "if !%s.Has() { continue }; ", it)
+					}
+					header := fmt.Sprintf("for _, %s := range verifpoint.MapIter(%d, %s) { %s{", it, len(sites), text(rs.X), pro.String())
+					edits = append(edits, edit{at: off(rs.For), end: off(rs.Body.Lbrace) + 1, text: header})
+					edits = append(edits, edit{at: off(rs.Body.Rbrace), end: off(rs.Body.Rbrace), text: "}", prio: 9})
+					stats["range-over-map sites rewritten"]++
+					sites = append(sites, fmt.Sprintf("%s:%d", rel, tf.Line(rs.For)))
+					return true
+				})
+			}
+
+			if want["yield"] {
+				if yieldPkg(p.PkgPath) {
+					for _, d := range f.Decls {
+						fd, ok := d.(*ast.FuncDecl)
+						if !ok || fd.Body == nil {
+							continue
+						}
+						fname := fd.Name.Name
+						if fd.Recv != nil && len(fd.Recv.List) > 0 {
+							fname = recvName(fd.Recv.List[0].Type) + "." + fname
+						}
+						full := strings.TrimPrefix(p.PkgPath, modPath+"/") + "." + fname
+						low := strings.ToLower(full + " " + rel)
+						hot := strings.Contains(low, "once") || strings.Contains(low, "pool") || strings.Contains(low, "allof") ||
+							strings.Contains(low, "all_of") || strings.Contains(low, "unnamed") || strings.Contains(low, "example")
+						id := len(points)
+						points = append(points, pointInfo{ID: id, Func: full, Hot: hot, File: fmt.Sprintf("%s:%d", rel, tf.Line(fd.Pos()))})
+						edits = append(edits, edit{at: off(fd.Body.Lbrace) + 1, end: off(fd.Body.Lbrace) + 1, text: fmt.Sprintf(" verifpoint.Yield(%d);", id), prio: 1})
+						stats["yield points"]++
+					}
+				}
+				ast.Inspect(f, func(nd ast.Node) bool {
+					call, ok := nd.(*ast.CallExpr)
+					if !ok || len(call.Args) != 1 {
+						return true
+					}
+					sel, ok := call.Fun.(*ast.SelectorExpr)
+					if !ok || sel.Sel.Name != "Do" {
+						return true
+					}
+					if !isOnceWrapper(p.TypesInfo.TypeOf(sel.X), modPath) {
+						return true
+					}
+					lit, ok := call.Args[0].(*ast.FuncLit)
+					if !ok {
+						stats["once .Do( with a non-literal argument (not hooked)"]++
+						return true
+					}
+					obj, field := "nil", text(sel.X)
+					if inner, ok := sel.X.(*ast.SelectorExpr); ok {
+						if it := p.TypesInfo.TypeOf(inner.X); it != nil {
+							if _, isPtr := it.Underlying().(*types.Pointer); isPtr {
+								obj, field = text(inner.X), inner.Sel.Name
+							}
+						}
+					}
+					edits = append(edits, edit{at: off(lit.Body.Lbrace) + 1, end: off(lit.Body.Lbrace) + 1,
+						text: fmt.Sprintf(" defer verifpoint.Hit(\"once\", %s, %q)();", obj, field), prio: 2})
+					stats["once bodies hooked"]++
+					return true
+				})
+			}
+
+			if len(edits) == 0 {
+				continue
+			}
+			// import, on the line of the package clause
+			edits = append(edits, edit{at: off(f.Name.End()), end: off(f.Name.End()), text: fmt.Sprintf("; import verifpoint %q", vpImport)})
+			res, err := applyEdits(src, edits)
+			if err != nil {
+				return fmt.Errorf("%s: %w", rel, err)
+			}
+			if _, err := parser.ParseFile(token.NewFileSet(), name, res, parser.SkipObjectResolution); err != nil {
+				return fmt.Errorf("%s: rewritten text does not parse: %w", rel, err)
+			}
+			dst := filepath.Join(outDir, strings.ReplaceAll(rel, string(filepath.Separator), "__"))
+			if err := os.WriteFile(dst, res, 0o644); err != nil {
+				return err
+			}
+			key := filepath.Join(repo, rel)
+			if prev, dup := replace[key]; dup && prev != "" {
+				return fmt.Errorf("%s is already replaced by a hook file", rel)
+			}
+			replace[key] = dst
+			stats["files rewritten"]++
+		}
+	}
+	if want["maporder"] && stats["range-over-map sites rewritten"] == 0 {
+		return fmt.Errorf("no range-over-map site found (nothing to force)")
+	}
+	if want["yield"] && stats["yield points"] == 0 {
+		return fmt.Errorf("no yield point inserted")
+	}
+	// table of yield points for the verifpoint package (names, hot flags) and a report for evidence
+	var tb strings.Builder
+	tb.WriteString("//go:build verif\n\npackage verifpoint\n\n// generated by cmd/instrument from the current tree\n\nfunc init() {\n\tpointNames = []string{\n")
+	for _, pt := range points {
+		fmt.Fprintf(&tb, "\t\t%q,\n", pt.Func)
+	}
+	tb.WriteString("\t}\n\thotPoints = []bool{\n")
+	for _, pt := range points {
+		fmt.Fprintf(&tb, "\t\t%v,\n", pt.Hot)
+	}
+	tb.WriteString("\t}\n\tmapSiteNames = []string{\n")
+	for _, st := range sites {
+		fmt.Fprintf(&tb, "\t\t%q,\n", st)
+	}
+	fmt.Fprintf(&tb, "\t}\n\trewrites = %q\n\tmapSites = %d\n\tonceBodies = %d\n}\n", strings.Join(kinds, ","), stats["range-over-map sites rewritten"], stats["once bodies hooked"])
+	tpath := filepath.Join(outDir, "verifpoint_table_gen.go")
+	if err := os.WriteFile(tpath, []byte(tb.String()), 0o644); err != nil {
+		return err
+	}
+	replace[filepath.Join(repo, verifpointPkg, "table_gen.go")] = tpath
+	rep, _ := json.MarshalIndent(map[string]any{"stats": stats, "map_sites": sites, "points": points}, "", " ")
+	os.WriteFile(filepath.Join(out, "rewrite_report.json"), rep, 0o644)
+	return nil
+}
+
+func recvName(e ast.Expr) string {
+	switch t := e.(type) {
+	case *ast.StarExpr:
+		return recvName(t.X)
+	case *ast.Ident:
+		return t.Name
+	case *ast.IndexExpr:
+		return recvName(t.X)
+	case *ast.IndexListExpr:
+		return recvName(t.X)
+	}
+	return "?"
+}
+
+// isOnceWrapper reports whether t (or what it points to) is internal/sync.ErrOnce or
+// ErrOnceWithValue[...] of the library.
+func isOnceWrapper(t types.Type, modPath string) bool {
+	if t == nil {
+		return false
+	}
+	if p, ok := t.Underlying().(*types.Pointer); ok {
+		t = p.Elem()
+	}
+	n, ok := t.(*types.Named)
+	if !ok {
+		return false
+	}
+	o := n.Origin().Obj()
+	if o == nil || o.Pkg() == nil || o.Pkg().Path() != modPath+"/internal/sync" {
+		return false
+	}
+	return o.Name() == "ErrOnce" || o.Name() == "ErrOnceWithValue"
+}
+
+func applyEdits(src []byte, edits []edit) ([]byte, error) {
+	sort.SliceStable(edits, func(i, j int) bool {
+		if edits[i].at != edits[j].at {
+			return edits[i].at < edits[j].at
+		}
+		// pure insertions before replacements starting at the same offset, then by prio
+		ii, jj := edits[i].end == edits[i].at, edits[j].end == edits[j].at
+		if ii != jj {
+			return ii
+		}
+		return edits[i].prio < edits[j].prio
+	})
+	var out []byte
+	pos := 0
+	for _, e := range edits {
+		if e.at < pos {
+			return nil, fmt.Errorf("overlapping edits at offset %d (a rewritten region contains another rewrite)", e.at)
+		}
+		out = append(out, src[pos:e.at]...)
+		out = append(out, e.text...)
+		pos = e.end
+	}
+	out = append(out, src[pos:]...)
+	return out, nil
 }
